@@ -88,13 +88,17 @@ def main():
                 "engine": "sa",
                 "level_claimed": {
                     "category": "other",
-                    "text": f"Static analysis of /repo's current source (no execution): structural obligations that are NECESSARY conditions of {pid} are discharged on every run — {decided}. "
-                            f"Not decided by this technique (and not claimed): {undecided}. thorough additionally runs the both-ways battery (in-memory breaking / behaviour-preserving variants) and seeded regression patches as a self-test of the rules.",
-                    "design_ref": f"DESIGN.md section 4, {pid}",
+                    "text": f"Static analysis of /repo's current source (nothing of the repository is imported or run): obligations that are NECESSARY conditions of {pid} are discharged on every run — {decided}. "
+                            f"The obligations added later (DESIGN 9.5, 9.8; ids and texts are printed by every run and copied into the evidence file) are decided the same way, most of them by walking the "
+                            f"extracted functions with the rule module's own evaluator on concrete representative inputs of a finite role domain (no solver, no symbolic paths); a shape the rule cannot "
+                            f"locate ends as 'not recognised' (exit 2), never as a pass. "
+                            f"Not decided by this technique (and not claimed): {undecided}. thorough additionally runs the both-ways battery (in-memory breaking / behaviour-preserving variants), the kept seeded "
+                            f"breaking changes and the kept behaviour-preserving changes of this property as a self-test of the rules.",
+                    "design_ref": f"DESIGN.md section 4, {pid}; sections 9.5, 9.8, 9.9",
                 },
                 "level_note": "Trusted base: CPython ast / re._parser, the sa/ engine (CFG, dominance, symbolic normal forms), the frozen role tables in rules/ (each row cites the doc line or property clause), "
                               "Thespian's receiveMsg_<ClassName> dispatch and per-pair FIFO, documented semantics of stdlib containers. Obligations are necessary, not sufficient: exit 0 means no structural breach, not a proof of the behaviour.",
-                "technique": tech,
+                "technique": tech + "; value-level decisions by abstract interpretation of the extracted functions on representative inputs (the checker's own AST evaluator)",
             })
         else:
             na.append({"property_id": pid, "reason": NOT_BUILT_REASON})
